@@ -349,6 +349,12 @@ pub fn run(args: &Args, scratch: &Path) -> ShardReport {
             } else {
                 sg
             };
+            // what a legal history of persist / replace / truncate / purge / flush leaves on disk
+            // is also C18's subject (the log recovers what it reported as durable): a reopen is
+            // the gentlest crash
+            if !arbitrary && sg.contains("after-reopen") && (sg.contains("entries-differ") || sg.contains("entry-lookup") || sg.contains("last_index")) {
+                rep.violation("C18", &format!("log-store:{sg}"), json!({"detail": d, "ops": ops}), json!({"seed": s, "mode": mode}));
+            }
             rep.violation("C20", &sg, json!({"detail": d, "ops": ops}), json!({"seed": s, "mode": mode}));
         }
         let _ = std::fs::remove_dir_all(&dir);
